@@ -125,7 +125,15 @@ def gen_case(rng, idx, tier):
                 script.append({"op": "send", "data": {"__kind__": "get_task_states"}})
             else:
                 script.append({"op": "send", "data": {"__kind__": "cancel_task", "tid": rng.choice([0, 1, 2, 99999, -1, None])}})
-        script.append({"op": rng.choice(["drop", "drop", "eof", "eof", "none"]), "hard": rng.random() < 0.5})
+        if rng.random() < 0.25:
+            # stops reading its answers but keeps asking: its own handler may block for ever, nobody else's
+            pos = rng.randrange(len(script) + 1)
+            script.insert(pos, {"op": "stall"})
+            for _ in range(rng.randint(1, 3)):
+                script.insert(pos + 1, {"op": "send", "data": {"__kind__": "get_task_states"}})
+            script.append({"op": rng.choice(["drop", "none", "none"]), "hard": False})
+        else:
+            script.append({"op": rng.choice(["drop", "drop", "eof", "eof", "none"]), "hard": rng.random() < 0.5})
         script = [s for s in script if s["op"] != "none"]
         if rng.random() < 0.3:
             script.insert(rng.randrange(len(script) + 1), {"op": "drop", "hard": rng.random() < 0.5})
